@@ -536,7 +536,12 @@ def run(ctx):
                 ctx.violate("password_stored", case.json(), "ofxget.cfg gained a password option")
             pw = ns.get("password")
             old_vals = {(s_, k_.lower(), v_.strip()) for s_, items in (before_user or []) for k_, v_ in items}
-            if pw and len(pw) > 3 and any(pw in v for s_, items in user for k, v in items if (s_, k, v) not in old_vals):
+            # (a password the generator happened to make equal to another option's value of the same step — e.g. the
+            # user id — proves nothing: that value is stored on purpose)
+            shared = pw and any((isinstance(v_, str) and pw in v_) or
+                                (isinstance(v_, (list, tuple)) and any(isinstance(m_, str) and pw in m_ for m_ in v_))
+                                for k_, v_ in ns.items() if k_ != "password")
+            if pw and len(pw) > 3 and not shared and any(pw in v for s_, items in user for k, v in items if (s_, k, v) not in old_vals):
                 ctx.violate("password_stored", case.json(), "the password text appears in ofxget.cfg")
             # DEFAULT clientuid stability
             duid = dict(sect_of(user, "DEFAULT")).get("clientuid")
